@@ -60,7 +60,7 @@ class Gen:
         self.expect = {}
         self.n = 0
 
-    def add(self, rk, body_i, is_async, args, level, name, target, skips, fields, ret, err):
+    def add(self, rk, body_i, is_async, args, level, name, target, skips, fields, ret, err, skip_all=False):
         self.n += 1
         fn = "g%03d" % self.n
         params = ["a: u64"]
@@ -77,6 +77,8 @@ class Gen:
             if must_skip:
                 skips = sorted(set(skips) | set(ids))
         skips = [s for s in skips if s in idents]
+        if skip_all:
+            skips = list(idents)
         body = BODIES[rk][body_i % len(BODIES[rk])].format(pre=" ".join(pre), aw="helper().await;" if is_async else "")
         attr = []
         if name:
@@ -85,7 +87,9 @@ class Gen:
             attr.append('level = "%s"' % level)
         if target:
             attr.append('target = "%s"' % target)
-        if skips:
+        if skip_all:
+            attr.append("skip_all")
+        elif skips:
             attr.append("skip(%s)" % ", ".join(skips))
         custom = []
         if fields == "expr":
@@ -100,6 +104,10 @@ class Gen:
         elif fields == "dotted":
             attr.append("fields(http.status = 200, who = %a)")
             custom = ["http.status", "who"]
+        elif fields == "dotted_same":
+            # first and last segment are both the parameter's name: still a different field than the parameter
+            attr.append("fields(a.a = 1)")
+            custom = ["a.a"]
         elif fields == "dotted_leaf":
             # the last segment of the dotted name is a parameter name: the parameter itself must still be recorded
             attr.append("fields(req.a = 1)")
@@ -156,7 +164,7 @@ def one(g, rng, rk=None, body_i=None, is_async=None):
     target = pick(rng, [None, None, "tgt::x"])
     idents = ["a"] + [i for k in args for i in ARGS[k][1]]
     skips = [i for i in idents if rng.random() < 0.25]
-    fields = pick(rng, [None, None, "expr", "lit", "shadow", "dotted", "dotted_leaf"])
+    fields = pick(rng, [None, None, "expr", "lit", "shadow", "dotted", "dotted_leaf", "dotted_same"])
     if fields in ("expr", "dotted") and "a" in skips:
         pass    # field expressions may still use skipped arguments
     ret = None
@@ -182,13 +190,14 @@ def config(rng):
     return dict(rk=rk, body_i=rng.randrange(len(BODIES[rk])), is_async=rng.random() < 0.4, args=args, level=pick(rng, LEVELS),
                 name=pick(rng, [None, None, "custom name"]), target=pick(rng, [None, None, "tgt::x"]),
                 skips=[i for i in idents if rng.random() < 0.25],
-                fields=pick(rng, [None, None, "expr", "lit", "shadow", "dotted", "dotted_leaf"]), ret=ret, err=err)
+                fields=pick(rng, [None, None, "expr", "lit", "shadow", "dotted", "dotted_leaf", "dotted_same"]), ret=ret, err=err,
+                skip_all=rng.random() < 0.12)
 
 
 def features(c):
     """The dimension values of a configuration whose pairwise combinations the quick corpus must cover."""
     f = {"rk=%s" % c["rk"], "async=%s" % c["is_async"], "level=%s" % c["level"], "name=%s" % bool(c["name"]), "target=%s" % bool(c["target"]),
-         "fields=%s" % c["fields"], "skip_a=%s" % ("a" in c["skips"]),
+         "fields=%s" % c["fields"], "skip_a=%s" % ("a" in c["skips"]), "skip_all=%s" % c.get("skip_all", False),
          "ret=%s" % (("mode:%s" % c["ret"][0]) if c["ret"] else None), "retlvl=%s" % (c["ret"][1] if c["ret"] else "-"),
          "err=%s" % (("mode:%s" % c["err"][0]) if c["err"] else None), "errlvl=%s" % (c["err"][1] if c["err"] else "-")}
     f |= {"arg:%s" % k for k in c["args"]}
@@ -239,9 +248,13 @@ def canonical(g):
         g.add("value", 1, True, [k], None, None, None, ARGS[k][1], None, None, None)
     g.add("value", 2, False, list(ARGS), "warn", "all args", "tgt::all", ["b"], "lit", (None, None), None)
     g.add("result", 0, True, list(ARGS), "error", None, None, ["a", "x"], "shadow", None, (None, None))
-    for f in ("expr", "lit", "shadow", "dotted", "dotted_leaf"):
+    for f in ("expr", "lit", "shadow", "dotted", "dotted_leaf", "dotted_same"):
         g.add("value", 0, False, ["b"], None, None, None, [], f, None, None)
         g.add("unit", 0, True, [], None, None, None, [], f, None, None)
+    # skip_all: no parameter is recorded (custom fields still are), sync and async, with arguments of every kind
+    g.add("value", 0, False, ["b", "big", "t"], None, None, None, [], None, None, None, skip_all=True)
+    g.add("result", 0, True, ["b", "pair"], "debug", None, None, [], "expr", None, (None, None), skip_all=True)
+    g.add("unit", 1, False, list(ARGS), None, "named", "tgt::s", [], "lit", None, None, skip_all=True)
     pairwise(g)
 
 
